@@ -352,9 +352,34 @@ func c10Truncate(c *Ctx) {
 			}
 			return nil
 		},
+		Instr: func(st *State, ins ssa.Instruction) {
+			// the comparison evaluated somewhere else than in the branch (a helper that returns it):
+			// its value carries a label to wherever it is branched on
+			if bo, ok := ins.(*ssa.BinOp); ok && bo.Op == token.EQL {
+				isSize := originHas("FileInfo).Size#0")
+				isLen := func(v ssa.Value) bool {
+					return originHas("desync.Index).Length#0")(v) || originHas("desync.Index).Length#0")(st.ArgOf(v))
+				}
+				if (isSize(bo.X) && isLen(bo.Y)) || (isSize(bo.Y) && isLen(bo.X)) {
+					st.V[bo] = Val{Sym: "size-match"}
+				}
+			}
+		},
 		Branch: func(st *State, iff *ssa.If, taken bool) {
 			// sparseFileMatch := stat.Size() == idx.Length()
 			v := iff.Cond
+			neg := false
+			for {
+				if u, ok := v.(*ssa.UnOp); ok && u.Op == token.NOT {
+					v, neg = u.X, !neg
+					continue
+				}
+				break
+			}
+			if _, isCmp := v.(*ssa.BinOp); !isCmp && st.Eval(v).Sym == "size-match" && taken != neg {
+				st.Flags["size-match"] = 1
+			}
+			v = iff.Cond
 			if bo, ok := v.(*ssa.BinOp); ok && bo.Op == token.EQL {
 				isSize := originHas("FileInfo).Size#0")
 				isLen := originHas("desync.Index).Length#0")
